@@ -1,17 +1,19 @@
 """C12 helper: one case = build the fixture of one class (enriched with a property group, typed
 children and, for groups, a sub-tree of depth 2) in a fresh workspace, observe the whole source
-workspace (live getters + per-node digests of the flushed file), copy the entity once with one
-combination of options, observe source and copy again, apply edits to the COPY (setters from the
-C03 domains and in-place edits of the objects returned by getters), observe the source after every
-edit, close, re-open both files and observe once more.
+workspace (live getters + per-node digests of the flushed file; for drillhole groups the file of an
+identical closed twin scene), copy the entity once with one combination of options, observe source
+and copy again, apply edits to the COPY (setters from the C03 domains and in-place edits of the
+objects returned by getters), observe the source after every edit, close, re-open both files and
+observe once more (live getters of the re-opened source, node digests of the source file).
 
 history (JSON, self-contained):
     {"cls": fixture class, "target": "same" | "group" | "other" | "othergroup",
      "cc": copy_children, "clear": clear_cache, "mask": "none" | "all" | "part",
      "pre": source re-loaded from its file (r+) before the copy, "disk": workspaces on disk files,
      "edits": [[kind, path, attribute, index], ...]}      kind: "set" | "poke" | "poke2"
-     path: "" the copy | "type" its entity type | "child:<Class>:<name>" | "child:...:type" |
-           "pg:<name>" | "sub:<label>" (an entity of the copied sub-tree by its label)
+     path: "" the copy | "type" its entity type | "pg:<index>" one of its property groups |
+           "sub:<label>" an entity of the copied sub-tree by its structural label | "sub:<label>|type" its type
+     "enrich": "full" | "notext" (without the text child, which masks cannot blank)
 
 Clauses (each a sentence of the statement of C12):
     copy-yields-entity     "Copying any entity ... yields an entity of the same class"
@@ -23,8 +25,8 @@ Clauses (each a sentence of the statement of C12):
                            entity that existed in the source workspace before the copy; same after re-open)
     source-file-unchanged  "... and the source file are unchanged" (per-node digests; a copy inside the
                            same workspace may only create nodes and extend the link set of the target parent)
-    copy-independent       "later edits of the copy do not show through in the source" (live getters and
-                           node digests after every edit, and the re-opened source file at the end)
+    copy-independent       "later edits of the copy do not show through in the source" (live getters after
+                           every edit; node digests and re-opened getters of the source file at the end)
 """
 
 from __future__ import annotations
@@ -898,12 +900,6 @@ def _parent_key(src, parent, same_ws):
         return None
     tgt = _expected_parent(src, parent)
     return None if tgt is None else "id:" + tgt.uid.hex
-
-
-def _node_key(entity):
-    if entity is None:
-        return None
-    return str(entity.uid)
 
 
 def _key_in(key, uid_hexes) -> bool:
